@@ -129,6 +129,28 @@ def check(run, driver):
         run.branch(mode)
         if null is not None:
             meta.append((case, res, null)); reqs.append({"op": "shuffle_decide", "null": [num(v) for v in null], "obs": num(obs), "alpha": num(alpha)})
+    # ---- sequences: the SAME data tested again at another level / with another shuffle budget / another seed (state between calls)
+    for it in range(60 if thorough else 20):
+        N = int(rng.integers(6, 20)); kz = int(rng.integers(0, 2))
+        X = rng.integers(0, 50, size=(N, 1)).astype(float); Y = rng.integers(0, 50, size=(N, 1)).astype(float)
+        Z = rng.integers(0, 50, size=(N, kz)).astype(float) if kz else None
+        salt = int(rng.integers(0, 1000)); levels = int(rng.choice([3, 1 << 20]))
+
+        def est(Xp, Yp, Zp=None, _l=levels, _s=salt, **k):
+            zc = [] if Zp is None else [Zp[:, c] for c in range(Zp.shape[1])]
+            return hash_est_value(Xp[:, 0], Yp[:, 0], zc, _l, _s, False)
+
+        obs = est(X, Y, Z)
+        seq = [(0.25, 20, 7), (0.01, 20, 7), (0.01, 12, 7), (0.5, 12, 9), (0.25, 20, 7)]
+        for (alpha, n, seed) in seq:
+            X0, Y0, Z0 = X.copy(), Y.copy(), None if Z is None else Z.copy()
+            res, calls, perms, other = run_shuffle(X, Y, Z, obs, alpha, n, seed, est)
+            case = {"mode": "sequence", "N": N, "kz": kz, "alpha": alpha, "n_shuffles": n, "obs": obs, "X": X0, "Y": Y0, "Z": Z0, "seed": seed, "salt": salt, "levels": levels,
+                    "sequence_of_(alpha,n_shuffles,seed)": seq}
+            null = judge(run, case, {"estimator": "scripted", "mode": "sequence"}, X, Y, Z, obs, alpha, n, res, calls, perms, other, X0, Y0, Z0)
+            run.case("sequence", [N, kz, alpha, n, seed, salt, X0.tolist()], null is not None and len(set(null)) >= 2)
+            if null is not None:
+                meta.append((case, res, null)); reqs.append({"op": "shuffle_decide", "null": [num(v) for v in null], "obs": num(obs), "alpha": num(alpha)})
     # ---- real estimators on small data
     nreal = 60 if thorough else 20
     for it in range(nreal):
